@@ -58,15 +58,21 @@ Section Nested.
     match E with [] => None | (k, v) :: r => if String.eqb k n then Some v else lookup r n end.
 
   Definition as_index (e : expr) : option (ident * Z) :=
-    match e with Subscript (Name n) (Constant (CInt i)) => Some (n, i) | _ => None end.
+    match e with
+    | Subscript (Name n) i => match int_of i with Some z => Some (n, z) | None => None end
+    | _ => None
+    end.
   Definition as_slice (e : expr) : option (ident * Z * option Z) :=
     match e with
-    | Call (Name f) [Subscript (Name n) (Slice (Some (Constant (CInt lo))) hi None)] [] =>
+    | Call (Name f) [Subscript (Name n) (Slice (Some lo) hi None)] [] =>
         if String.eqb f "list" then
-          match hi with
-          | None => Some (n, lo, None)
-          | Some (Constant (CInt h)) => Some (n, lo, Some h)
-          | Some _ => None
+          match int_of lo with
+          | Some l =>
+              match hi with
+              | None => Some (n, l, None)
+              | Some h => match int_of h with Some hz => Some (n, l, Some hz) | None => None end
+              end
+          | None => None
           end
         else None
     | _ => None
@@ -141,8 +147,7 @@ Section Nested.
     destruct (String.eqb_spec id "tuple") as [->|_]; [|reflexivity].
     exfalso. unfold eval_acc in H. cbn [as_index] in H. unfold as_slice in H.
     destruct a0; try discriminate H. destruct a0_1; try discriminate H. destruct a0_2; try discriminate H.
-    destruct lower as [lo|]; try discriminate H. destruct lo; try discriminate H. destruct c; try discriminate H.
-    destruct step; discriminate H.
+    destruct lower as [lo|]; try discriminate H. destruct step; discriminate H.
   Qed.
 
   (* ---------- the theorem ---------- *)
@@ -228,9 +233,13 @@ Section Nested.
           clear Hb. destruct cur as [|a cur']; [discriminate|].
           destruct (bind t a) as [b0|] eqn:Eb0; [|discriminate].
           destruct (bind_items (fun t0 v0 => bind t0 v0) ts cur' starred) as [bR|] eqn:EbR; [|discriminate]. injection Hb' as <-.
-          set (sub := Subscript (Name (tmpname q)) (cint (if starred then Z.of_nat index - Z.of_nat n else Z.of_nat index)%Z)).
+          set (sub := Subscript (Name (tmpname q)) (if starred then nint (Z.of_nat index - Z.of_nat n)%Z else cint (Z.of_nat index))).
           assert (Hacc : eval_acc E sub = Some a).
-          { unfold eval_acc, sub. cbn [as_index cint]. rewrite Hlk. destruct starred.
+          { unfold eval_acc, sub. cbn [as_index].
+            assert (Hi : int_of (if starred then nint (Z.of_nat index - Z.of_nat n)%Z else cint (Z.of_nat index)) =
+                         Some (if starred then Z.of_nat index - Z.of_nat n else Z.of_nat index)%Z)
+              by (destruct starred; [apply int_of_nint|apply int_of_cint]).
+            rewrite Hi. rewrite Hlk. destruct starred.
             - pose proof (bind_items_true_length _ ts cur' bR EbR) as Hlen.
               apply (py_index_back val pre cur' a index n); cbn [length] in Hn; lia.
             - rewrite <- (Hpre eq_refl). apply py_index_front. }
@@ -260,11 +269,11 @@ Section Nested.
         injection Hb as <-.
         set (upper := (Z.of_nat index - Z.of_nat n + 1)%Z).
         set (sub := call (Name "list") [Subscript (Name (tmpname q))
-                       (Slice (Some (cint (Z.of_nat index))) (if Z.eqb upper 0 then None else Some (cint upper)) None)]).
+                       (Slice (Some (cint (Z.of_nat index))) (if Z.eqb upper 0 then None else Some (nint upper)) None)]).
         assert (Hacc : eval_acc E sub = Some (VSeq (firstn (length cur - length ts) cur))).
-        { unfold eval_acc, sub, call. cbn [as_index]. unfold as_slice. cbn [String.eqb Ascii.eqb Bool.eqb cint].
+        { unfold eval_acc, sub, call. cbn [as_index]. unfold as_slice. cbn [String.eqb Ascii.eqb Bool.eqb]. rewrite int_of_cint.
           assert (Hs := py_slice_star val n pre cur (length ts) index (Hpre eq_refl) Hle ltac:(cbn [length] in Hn; lia)). fold upper in Hs.
-          revert Hs. destruct (Z.eqb upper 0); intros Hs; cbn [cint]; rewrite Hlk, Hs; reflexivity. }
+          revert Hs. destruct (Z.eqb upper 0); intros Hs; rewrite ?int_of_nint; rewrite Hlk, Hs; reflexivity. }
         destruct (Ht (index :: q) sub E _ b0 Hacc Eb0) as [st0 [D0 [Ha0 [Hr0 HD0]]]].
         pose proof (child_of_below index D0 HD0) as HC0.
         destruct (IH HFr (S index) true (pre ++ firstn (length cur - length ts) cur) (skipn (length cur - length ts) cur) (D0 ++ E) bR)
